@@ -1,4 +1,5 @@
 import CentrifugeVerif.Proofs.Medium
+import CentrifugeVerif.Proofs.Dissolve
 /-!
 # C38 — channel medium preserves delivery guarantees
 
@@ -137,5 +138,93 @@ example : (liveStep ⟨10, 1⟩ (toInc .insuff)).2 = .insufficient .epoch := by 
 -- the bound in `position_loss_ends` is needed: at position 2^64-2 the sentinel would be taken for the
 -- next publication (outside the model's assumption, and unreachable for real streams)
 example : (liveStep ⟨maxU64 - 1, 0⟩ (toInc .insuff)).2 = .deliver maxU64 := by decide
+
+/-! ### the medium's queue is a FIFO at the level of its ring buffer
+
+`publicationQueue` (channel_medium.go) is, field by field, the ring buffer of `internal/dissolve`
+(`nodes/head/tail/cnt/initCap`, `resize` with the two-segment copy, doubling in `Add`, halving in `Remove`),
+plus a `size` counter.  `Model/Dissolve.lean` models that ring line by line (every Go panic is an explicit
+`none`); the C38 check runs the real `publicationQueue` against it on random Add/Remove walks.  Here the
+ring is shown to refine the FIFO list `Model/Medium.lean` uses for the queue: for EVERY sequence of
+Add / Remove operations from an empty queue of any positive initial capacity, no operation panics and
+`Remove` returns exactly what a list-based FIFO returns. -/
+
+inductive QOp
+  | add (j : Nat)
+  | remove
+deriving Repr, DecidableEq
+
+/-- the ring: `none` = a Go run-time panic; outputs: `Remove` results in order -/
+def ringRun : Dissolve.Queue → List QOp → Option (Dissolve.Queue × List (Option Nat))
+  | q, [] => some (q, [])
+  | q, .add j :: rest =>
+    match Dissolve.add q j with
+    | none => none
+    | some (q', _) => ringRun q' rest
+  | q, .remove :: rest =>
+    match Dissolve.remove q with
+    | none => none
+    | some (q', r) =>
+      match ringRun q' rest with
+      | none => none
+      | some (q'', outs) => some (q'', r :: outs)
+
+/-- the FIFO list specification -/
+def fifoRun : List Nat → List QOp → List Nat × List (Option Nat)
+  | l, [] => (l, [])
+  | l, .add j :: rest => fifoRun (l ++ [j]) rest
+  | [], .remove :: rest => let r := fifoRun [] rest; (r.1, none :: r.2)
+  | j :: l, .remove :: rest => let r := fifoRun l rest; (r.1, some j :: r.2)
+
+theorem ring_refines_fifo (q : Dissolve.Queue) (hi : Dissolve.QInv q) (ops : List QOp) :
+    ∃ q', ringRun q ops = some (q', (fifoRun (Dissolve.abs q) ops).2) ∧ Dissolve.QInv q' ∧
+      Dissolve.abs q' = (fifoRun (Dissolve.abs q) ops).1 := by
+  induction ops generalizing q with
+  | nil => exact ⟨q, rfl, hi, rfl⟩
+  | cons op rest ih =>
+    cases op with
+    | add j =>
+      obtain ⟨q1, hadd, hi1, habs, _⟩ := Dissolve.add_spec q j hi
+      have habs1 : Dissolve.abs q1 = Dissolve.abs q ++ [j] := by
+        have h1 : Dissolve.absO q1 = (Dissolve.abs q ++ [j]).map some := by
+          rw [habs, hi.somes]; simp
+        exact (Dissolve.abs_of_absO h1).1
+      obtain ⟨q', hrun, hi', habs'⟩ := ih q1 hi1
+      refine ⟨q', ?_, hi', ?_⟩
+      · simp only [ringRun, hadd, fifoRun]; rw [habs1] at hrun; exact hrun
+      · simp only [fifoRun]; rw [habs1] at habs'; exact habs'
+    | remove =>
+      cases hl : Dissolve.abs q with
+      | nil =>
+        have hcnt : q.cnt = 0 := by
+          have h1 := Dissolve.absO_length q hi.cnt_le (Nat.le_of_lt hi.head_lt)
+          rw [hi.somes, hl] at h1; simpa using h1.symm
+        have hrem := Dissolve.remove_empty q hcnt
+        obtain ⟨q', hrun, hi', habs'⟩ := ih q hi
+        rw [hl] at hrun habs'
+        refine ⟨q', ?_, hi', ?_⟩
+        · simp only [ringRun, hrem, hrun, fifoRun]
+        · simp only [fifoRun]; exact habs'
+      | cons j l =>
+        obtain ⟨q1, hrem, hi1, habs1, _⟩ := Dissolve.remove_spec q hi j l hl
+        obtain ⟨q', hrun, hi', habs'⟩ := ih q1 hi1
+        rw [habs1] at hrun habs'
+        refine ⟨q', ?_, hi', ?_⟩
+        · simp only [ringRun, hrem, hrun, fifoRun]
+        · simp only [fifoRun]; exact habs'
+
+/-- **pubqueue_fifo**: from `newPublicationQueue(c)` (`c > 0`; the code uses 2), every Add/Remove sequence
+runs without panic and returns the FIFO answers — whatever the ring's wrap, growth and shrink history. -/
+theorem pubqueue_fifo (c : Nat) (hc : 0 < c) (ops : List QOp) :
+    ∃ q', ringRun (Dissolve.newQueue c) ops = some (q', (fifoRun [] ops).2) ∧
+      Dissolve.abs q' = (fifoRun [] ops).1 := by
+  obtain ⟨q', h1, _, h2⟩ := ring_refines_fifo (Dissolve.newQueue c) (Dissolve.inv_newQueue c hc) ops
+  rw [Dissolve.abs_newQueue] at h1 h2
+  exact ⟨q', h1, h2⟩
+
+-- the walk on which the seeded `resize` change (second segment copied to `nodes[tail:]`) first differs:
+-- grow 2→4, one Remove (head = 1), two Adds wrap and force a grow with the head off-centre
+example : (ringRun (Dissolve.newQueue 2) [.add 1, .add 2, .add 3, .add 4, .remove, .add 5, .add 6, .remove, .remove]).map (·.2)
+    = some [some 1, some 2, some 3] := by decide
 
 end CentrifugeVerif.C38
